@@ -279,6 +279,8 @@ def rows_of(fn):
                         if any(nm not in TY for nm in names):
                             return None
                         rows.append(([TY[nm] for nm in names[:-1]], TY[names[-1]]))
+                    if len({tuple(ins) for ins, _ in rows}) != len(rows):
+                        return None     # duplicate keys: the dict keeps the last, the mirror looks up the first
                     return rows
     return None
 
